@@ -1,12 +1,16 @@
 ---- MODULE MCSeqNum ----
 (* E1 for C14: TLC visits every pair (a, x) in V x V as a state and evaluates
    the equivalences for every third / third-and-fourth operand in the
-   invariants, i.e. every operand tuple of every function at modulus M. *)
+   invariants, i.e. every operand tuple of every function at modulus M.
+   wa[s] / wx[s] hold the windows [a, a+s) / [x, x+s) of the state as sets
+   (computed once per state), so that "the windows share a number" is one set
+   intersection per tuple; QuadsLit ties them to the literal \E k form. *)
 EXTENDS SeqNum, TLC
-VARIABLES a, x, st
-vars == <<a, x, st>>
-Init == a \in V /\ x = 0 /\ st = 0
-Next == st = 0 /\ st' = 1 /\ x' \in V /\ a' = a
+VARIABLES a, x, st, wa, wx
+vars == <<a, x, st, wa, wx>>
+Wins(p) == [s \in V |-> Window(p, s)]
+Init == a \in V /\ x = 0 /\ st = 0 /\ wa = Wins(a) /\ wx = Wins(0)
+Next == st = 0 /\ st' = 1 /\ x' \in V /\ a' = a /\ wa' = wa /\ wx' = Wins(x')
 Spec == Init /\ [][Next]_vars
 
 ASSUME M \in {4, 8, 16, 32, 64, 128} /\ H + H = M
@@ -17,32 +21,30 @@ Pairs == /\ LtExact(a, x) /\ LeExact(a, x) /\ LtShape(a, x) /\ AddSizeEq(a, x)
 Triples == \A c \in V : /\ InRangeEq(c, a, x) /\ InWindowEq(c, a, x)
                         /\ (InWindow(c, a, x) <=> (x > 0 /\ (c = a \/ InRange(c, a, Add(a, x)))))
 Quads == \A b, y \in V :
-            LET sh   == Share(a, b, x, y)          \* the definition, literally (\E k \in V)
-                shw  == ShareW(a, b, x, y)
+            LET sh   == (wa[b] \cap wx[y]) # {}        \* ShareSet(a, b, x, y): the windows share a number
                 impl == OverlapImpl(a, b, x, y)
-                ends == EndsAhead(a, b, x, y)
-                fe   == (b = 0 \/ y = 0) /\ ends
-                fw   == b > 0 /\ y > 0 /\ shw /\ ~ends
-            IN  /\ (impl # sh) <=> (fe \/ fw)                    \* OverlapExact
-                /\ sh <=> shw                                    \* ShareLemma
-                /\ (fe \/ fw) <=> F2b(a, b, x, y)
-                /\ impl <=> ends
-                /\ R2(b, y) => ~(fe \/ fw)
-                /\ R1(a, b, x, y) => ~(fe \/ fw)
-                /\ fw => b + y > H + 1
-                /\ ~(fe /\ fw)
-QuadsSym == \A b, y \in V : Share(a, b, x, y) <=> Share(x, y, a, b)
-(* R2 is exact in the sizes (evaluated once, in the state a = 0, st = 0) *)
+                f    == F2b(a, b, x, y)
+            IN  /\ (impl # sh) <=> f                             \* OverlapExact
+                /\ sh <=> ShareW(a, b, x, y)                     \* ShareLemma
+                /\ R2(b, y) => ~f
+                /\ R1(a, b, x, y) => ~f
+                /\ (f /\ b > 0 /\ y > 0) => b + y > H + 1         \* WideNeedsExtent
+(* the set form used above is the literal definition (\E k \in V : ...) *)
+QuadsLit == /\ \A s \in V : wa[s] = Window(a, s) /\ wx[s] = Window(x, s)
+            /\ \A b, y \in V : Share(a, b, x, y) <=> ((wa[b] \cap wx[y]) # {})
+(* R2 is exact in the sizes: for every other (b, y) except (0,1), (1,0) some placement is in F2b
+   (the converse, R2 => ~F2b for every placement, is part of Quads).  Evaluated once, in the state a = 0, st = 0. *)
 SizesExact == (st = 0 /\ a = 0) =>
-                \A b, y \in V : (R2(b, y) \/ <<b, y>> \in {<<0, 1>>, <<1, 0>>})
-                                  <=> (\A p, q \in V : ~F2b(p, b, q, y))
+                /\ \A b, y \in V : (R2(b, y) \/ <<b, y>> \in {<<0, 1>>, <<1, 0>>}) \/ (\E q \in V : F2b(0, b, q, y))
+                /\ \A p, q \in V : ~F2b(p, 0, q, 1) /\ ~F2b(p, 1, q, 0)
 (* translation invariance of every definition and region (used by the embedding sweep) *)
-Shift == \A t \in {1, H - 1, H, H + 1, M - 1} : \A b, y \in {0, 1, H - 1, H, H + 1, M - 1} :
+Shift == \A t \in {1, H, M - 1} : \A b, y \in {0, 1, H, M - 1} :
             LET a2 == Add(a, t)  x2 == Add(x, t) IN
             /\ Precedes(a2, x2) <=> Precedes(a, x)
             /\ F2a(a2, x2) <=> F2a(a, x)
             /\ InRange(Add(b, t), a2, x2) <=> InRange(b, a, x)
             /\ InWindow(x2, a2, b) <=> InWindow(x, a, b)
             /\ Share(a2, b, x2, y) <=> Share(a, b, x, y)
+            /\ Share(a, b, x, y) <=> Share(x, y, a, b)
             /\ F2b(a2, b, x2, y) <=> F2b(a, b, x, y)
 ====
